@@ -19,7 +19,7 @@ from __future__ import annotations
 
 import itertools
 
-from .. import defs, impl, refimpl, t1_hist, v5_c06bb
+from .. import defs, impl, refimpl, t1_hist, v5_c06bb, v8_c06
 from ..common import Result, mkrng
 from ..structprops import Engine, load, real_parse, bits_after_dynamic, small_unit_bits, signed_bit_units, rand_bytes
 
@@ -288,7 +288,15 @@ def run(env) -> Result:
                 "straddle, 16 storage types, endian codes < > ! @ =) on the real BitBuffer object over a BytesIO: after every call result or "
                 "exception class, _remaining, _type, tell() and the canonical buffer content against the Lean object model, at the end the stream "
                 "content; reads against plain bit slicing of the unit, clean write runs + flush read back by a fresh BitBuffer. "
-                "distinct = (definition, config, input) resp. (sequence, endian, stream); non-trivial = >= 2 bit-fields resp. >= 3 bit calls or 2 types")
+                "(f) call forms: structures of ONE bit-field (every storage type incl. char/int8/enum/flag/odd widths/uint128 and typedef aliases, "
+                "widths 1..unit) and of 2-6 bit-fields only (one or several units), {<,>} x {packed, aligned} x {interpreted, compiled}, inputs of "
+                "exactly the structure's size, longer, and one short: all 14 entry points T(bytes|bytearray|memoryview|BytesIO), "
+                "T.read(buffer|stream|stream not at 0), T.reads(buffer), cs.read(name, buffer|stream) must succeed, give integers (enum members) "
+                "in [0, 2^bits) equal to an independent bit-slicing reference, identical objects, stream left behind the units; the object of "
+                "every form dumps (dumps/T.dumps/T.write/v.write) to the input's data bits and parses back; T(values that fit).dumps() = the "
+                "reference's composition, read back through every form; short input: all forms fail alike; T(bytes) form vs Lean model. "
+                "distinct = (definition, config, input) resp. (sequence, endian, stream); non-trivial = >= 2 bit-fields resp. >= 3 bit calls or 2 types "
+                "resp. (f) every (definition, config, input): 14 call forms")
     eng = Engine(env, res, "C06")
     rnd = mkrng(env["seed"], "c06")
     tier = env["tier"]
@@ -382,6 +390,8 @@ def run(env) -> Result:
     eng.flush()
     # (e) the class BitBuffer as an object: operation sequences on the real object against the Lean model and the bit-slicing reference
     v5_c06bb.run(env, eng, res, mkrng(env["seed"], "c06-bb"))
+    # (f) call forms of bit-field-only structures (one bit-field in particular): every entry point into the reader, exact-size inputs
+    v8_c06.run(env, eng, res, mkrng(env["seed"], "c06-callforms"))
     res.sample({"definition": defs.render_struct("T", trees[0]), "inputs": "all 256 byte values"})
     res.sample({"definition": defs.render_struct("T", trees[-1])})
     return res
@@ -391,5 +401,7 @@ def replay(body) -> int:
     print("replay:", body.get("what"))
     if "bbops" in (body.get("case") or {}):
         return v5_c06bb.replay_case(body["case"])
+    if "callforms" in (body.get("case") or {}):
+        return v8_c06.replay_case(body["case"])
     print(body.get("case", {}).get("repro"), body.get("case", {}).get("data"))
     return 0
